@@ -49,6 +49,12 @@ def main():
         traceback.print_exc()
         run.broken("internal", "-", type(e).__name__, "-", "rule engine error, check fails closed: %s" % e)
         level, explanation, proof = getattr(mod, "LEVEL", "other"), "check failed closed: %s" % e, None
+    try:
+        pi = sys.modules.get("rules.polyint")
+        if pi is not None:
+            run.functions |= set(pi.TRACE)
+    except Exception:
+        pass
     return run.finish(level, explanation, meta, proof)
 
 
